@@ -6,5 +6,6 @@ CONSTANTS
   Mix = 2
   Bases = {"bare", "info"}
   DeepBases = {"info"}
+  Std = FALSE
   Emit = TRUE
 INVARIANTS TypeOK Isolated EmitCase
